@@ -47,6 +47,10 @@ type FileSpec struct {
 	// declares services with the SAME names in another package.
 	Twin bool   `json:"twin,omitempty"`
 	Sub  string `json:"sub,omitempty"` // directory suffix (set on the derived twin spec)
+	// PathTail: further import-path elements below the file's directory, e.g.
+	// "acme-weather/v2": the Go package is then named after a bare major
+	// version and its parent element is not a Go identifier.
+	PathTail string `json:"path_tail,omitempty"`
 }
 
 // TwinSpec returns the spec of the second file of a twin request.
@@ -63,7 +67,13 @@ func (f FileSpec) TwinSpec() FileSpec {
 
 const moduleRoot = "c17batch"
 
-func (f FileSpec) dir() string          { return fmt.Sprintf("%s/gen/c%d%s", moduleRoot, f.ID, f.Sub) }
+func (f FileSpec) dir() string {
+	d := fmt.Sprintf("%s/gen/c%d%s", moduleRoot, f.ID, f.Sub)
+	if f.PathTail != "" {
+		d += "/" + f.PathTail
+	}
+	return d
+}
 func (f FileSpec) protoName() string    { return f.dir() + "/svc.proto" }
 func (f FileSpec) depDir() string       { return fmt.Sprintf("%s/gen/c%ddep", moduleRoot, f.ID) }
 func (f FileSpec) depProto() string     { return f.depDir() + "/dep.proto" }
@@ -80,6 +90,9 @@ func (f FileSpec) goPackageOption() string {
 func (f FileSpec) baseGoPkgName() string {
 	if f.GoPkgName != "" {
 		return f.GoPkgName
+	}
+	if f.PathTail != "" {
+		return f.PathTail[strings.LastIndex(f.PathTail, "/")+1:]
 	}
 	return fmt.Sprintf("c%d%s", f.ID, f.Sub)
 }
